@@ -260,6 +260,7 @@ class Check:
         self.samples = []
         self.assumptions = []
         self.info = {}
+        self.level = "other"
 
     def rule(self, name, what, instances, floor=None, obligations=None, discharged=None, extra=None):
         r = {"rule": name, "what": what, "instances": instances}
@@ -313,7 +314,7 @@ class Check:
             "property_id": self.pid,
             "tier": self.tier,
             "seed": int(os.environ.get("VERIF_SEED", "0") or 0),
-            "level": "other",
+            "level": self.level,
             "coverage": {
                 "explanation": "static analysis of /repo's current source: " + "; ".join("%s (%d instances)" % (r["rule"], r["instances"]) for r in self.rules),
                 "evaluations": max(1, obligations),
